@@ -19,6 +19,9 @@ _AX3_END = CORE.index('pub use ax3::points_of;') + len('pub use ax3::points_of;'
 CORE = CORE[:_AX3_START] + CORE[_AX3_END:]
 _VIEW = "impl View for PreResolvedByteCode { type V = Seq<PreResolvedCodePoint>; closed spec fn view(&self) -> Seq<PreResolvedCodePoint> { self.inner@ } }\n"
 assert _VIEW in CORE
+_HULL = "/// the smallest span containing both\npub uninterp spec fn hull(a: SourceRange, b: SourceRange) -> SourceRange;\n"
+assert _HULL in CORE
+CORE = CORE.replace(_HULL, '')     # moved into axh together with its axiom
 CORE = CORE.replace(_VIEW, '')     # moved into ax3 (an axiom there mentions it; Verus rejects a root -> ax3 -> root dependency cycle)
 
 ITER = r"""
@@ -53,6 +56,7 @@ pub mod axf { use super::*; use vstd::prelude::*;
 pub broadcast axiom fn axiom_debug_opt_tokenwithloc() ensures #[trigger] vstd::std_specs::fmt::fmt_req_all::<Option<TokenWithLoc>>();
 pub broadcast axiom fn axiom_debug_opt_token() ensures #[trigger] vstd::std_specs::fmt::fmt_req_all::<Option<Token>>();
 pub broadcast axiom fn axiom_debug_token() ensures #[trigger] vstd::std_specs::fmt::fmt_req_all::<Token>();
+pub broadcast axiom fn axiom_debug_peek_result<'a>() ensures #[trigger] vstd::std_specs::fmt::fmt_req_all::<Result<Option<&'a TokenWithLoc>, SyntaxError>>();
 pub broadcast axiom fn axiom_debug_tokenwithloc() ensures #[trigger] vstd::std_specs::fmt::fmt_req_all::<TokenWithLoc>();
 }
 pub trait FromYielded: Sized { spec fn pts(&self) -> Seq<PreResolvedCodePoint>; spec fn cds(&self) -> Seq<ByteCode>; }
@@ -63,7 +67,7 @@ impl FromYielded for Vec<PreResolvedCodePoint> { open spec fn pts(&self) -> Seq<
 impl FromYielded for CelByteCode { open spec fn pts(&self) -> Seq<PreResolvedCodePoint> { no_points(*self) } open spec fn cds(&self) -> Seq<ByteCode> { self@ } }
 #[verifier::external_body] pub fn it_collect<I, R: FromYielded>(i: I) -> (r: R) ensures r.pts() == points_of(i), r.cds() == codes_of(i) { unimplemented!() }
 """
-ITER_BROADCAST = ('vw::lemma_prbc_view, axf::axiom_debug_opt_tokenwithloc, axf::axiom_debug_opt_token, axf::axiom_debug_token, axf::axiom_debug_tokenwithloc, ax3::axiom_points_of_array, ax3::axiom_points_of_vec, ax3::axiom_points_of_prbc, '
+ITER_BROADCAST = ('axh::axiom_hull_commutes, vw::lemma_prbc_view, axf::axiom_debug_opt_tokenwithloc, axf::axiom_debug_opt_token, axf::axiom_debug_token, axf::axiom_debug_tokenwithloc, axf::axiom_debug_peek_result, ax3::axiom_points_of_array, ax3::axiom_points_of_vec, ax3::axiom_points_of_prbc, '
                   'ax3::axiom_points_of_codes1, ax3::axiom_points_of_codevec, ax3::axiom_codes_of_array')
 MC = {'into_iter': 'it_into_iter', 'chain': 'it_chain', 'collect': 'it_collect'}
 MAP_INTO = ('.map(|b| b.into())', '.map_into_points()', 'R2m: `.map(|b| b.into())` over ByteCode items -> SeqIter::map_into_points (the conversion is part of points_of)')
@@ -162,3 +166,71 @@ def compiler_types(U, grammar='binary'):
     U.extract(PR, 'struct PreResolvedByteCode')
     U.extract(CPR, 'enum NodeValue')
     U.extract(CPR, 'struct CompiledProg')
+
+
+# ---- the Tokenizer trait with the scanner position (for spans that the parser takes from location()) ------------------------------
+TOKENIZER_FULL = r"""
+/// the end of a span (SourceRange has private fields)
+pub closed spec fn r_end(r: SourceRange) -> SourceLocation { r.end }
+pub closed spec fn r_start(r: SourceRange) -> SourceLocation { r.start }
+pub closed spec fn mk_range(a: SourceLocation, b: SourceLocation) -> SourceRange { SourceRange { start: a, end: b } }
+pub trait Tokenizer {
+    spec fn toks(&self) -> Seq<TokenWithLoc>;
+    spec fn pos(&self) -> nat;
+    /// how many tokens the scanner has read: pos() after a next(), pos() + 1 after a peek() (the look-ahead has been scanned)
+    spec fn scanned(&self) -> nat;
+    fn peek(&mut self) -> (r: Result<Option<&TokenWithLoc>, SyntaxError>)
+        requires old(self).pos() <= old(self).toks().len(),
+        ensures
+            final(self).toks() == old(self).toks(),
+            final(self).pos() == old(self).pos(),
+            r is Ok ==> final(self).scanned() == old(self).pos() + 1,
+            r is Ok ==> (match r->Ok_0 {
+                Some(t) => old(self).pos() < old(self).toks().len() && *t == old(self).toks()[old(self).pos() as int],
+                None => old(self).pos() == old(self).toks().len(),
+            });
+    fn next(&mut self) -> (r: Result<Option<TokenWithLoc>, SyntaxError>)
+        requires old(self).pos() <= old(self).toks().len(),
+        ensures
+            final(self).toks() == old(self).toks(),
+            r is Ok ==> final(self).scanned() == old(self).pos() + 1,
+            r is Ok ==> (match r->Ok_0 {
+                Some(t) => old(self).pos() < old(self).toks().len() && t == old(self).toks()[old(self).pos() as int] && final(self).pos() == old(self).pos() + 1,
+                None => old(self).pos() == old(self).toks().len() && final(self).pos() == old(self).pos(),
+            }),
+            r is Err ==> final(self).pos() == old(self).pos();
+    /// ASSUMED of every tokenizer: the scanner stands at the end of the last token it has read
+    fn location(&self) -> (r: SourceLocation)
+        ensures 1 <= self.scanned() <= self.toks().len() ==> r == r_end(self.toks()[self.scanned() - 1].loc);
+}
+"""
+
+
+def core_with_full_tokenizer():
+    a = CORE.index('pub trait Tokenizer {')
+    b = CORE.index('impl vstd::std_specs::convert::FromSpecImpl<SyntaxError> for CelError')
+    return CORE[:a] + TOKENIZER_FULL + CORE[b:]
+
+
+HULL_AXIOMS = r"""
+pub mod axh { use super::*; use vstd::prelude::*;
+/// the smallest span containing both
+pub uninterp spec fn hull(a: SourceRange, b: SourceRange) -> SourceRange;
+/// the hull of two spans does not depend on their order (min of the starts, max of the ends)
+pub broadcast axiom fn axiom_hull_commutes(a: SourceRange, b: SourceRange) ensures #[trigger] hull(a, b) == hull(b, a);
+}
+pub use axh::hull;
+"""
+ITER = HULL_AXIOMS + ITER
+
+
+# ambient, contract-less members of the BindContext stand-in (so that a changed body that starts consulting the bindings still type-checks)
+BINDCTX_AMBIENT = r"""
+impl<'a> BindContext<'a> {
+    #[verifier::external_body] pub fn get_param<'l>(&'l self, name: &str) -> Option<&'l CelValue> { unimplemented!() }
+    #[verifier::external_body] pub fn is_bound(&self, name: &str) -> bool { unimplemented!() }
+    #[verifier::external_body] pub fn get_type(&self, name: &str) -> Option<&CelValue> { unimplemented!() }
+    #[verifier::external_body] pub fn has_func(&self, name: &str) -> bool { unimplemented!() }
+    #[verifier::external_body] pub fn has_macro(&self, name: &str) -> bool { unimplemented!() }
+}
+"""
